@@ -451,7 +451,8 @@ pub fn snapshot(pkg: &mut Pkg) -> String {
                 if !t.has_column(c.name()) {
                     bad = Some(format!("has_column({:?}) is false for a listed column", c.name()));
                 }
-                for odd in [format!("{}.{}", name, c.name()), format!("{} ", c.name()), c.name().to_lowercase() + "_"] {
+                let swapped: String = c.name().chars().map(|ch| if ch.is_ascii_lowercase() { ch.to_ascii_uppercase() } else { ch.to_ascii_lowercase() }).collect();
+                for odd in [format!("{}.{}", name, c.name()), format!("{} ", c.name()), c.name().to_lowercase() + "_", swapped, name.clone(), format!("{name}.")] {
                     if !list.iter().any(|d| d.name() == odd) && (t.has_column(&odd) || t.get_column(&odd).is_some()) {
                         bad = Some(format!("has_column / get_column find {:?}, which is not listed", odd));
                     }
